@@ -198,6 +198,13 @@ class ResistiveWallCalc(CalcImpedanceBase):
     def _has_delta(cx):
         return any(nm == 'delta' and vid in cx.st.env for vid, nm in cx.st.names.items())
 
+    def bounded_defs(self, cx, K):
+        # bounded re-check: the loop counter is a numeral there, and a product with a numeral is evaluated as the real product;
+        # the uninterpreted product of the law agrees with it on numerals (instances of fmul(c, y) == c*y)
+        delta = cx.a('f_max') / cx.a('f0') / (z3.ToReal(cx.a('n')) - 1)
+        return [models.FMUL(z3.RealVal(j), delta) == j * delta for j in range(K + 2)] + \
+               [models.FMUL(z3.ToReal(z3.IntVal(j)), delta) == j * delta for j in range(K + 2)]
+
     def extra_inv(self, cx):
         z1 = cx.val('Z1')
         return [('delta', cx.v('delta') == cx.a('f_max') / cx.a('f0') / (z3.ToReal(cx.a('n')) - 1)),
